@@ -66,12 +66,13 @@ def one_trace(rng, tid, prop):
             p = {"axis": ax, "n": rng.choice([0, 1, 1, 2, 3])}
             for key in ("has_pre", "has_app"):
                 if rng.random() < 0.3:
+                    ekind = kind if rng.random() < 0.6 else rng.choice(["int", "float"])    # operands of another dtype are promoted
                     if rng.random() < 0.5:
-                        extra = small_poly(rng, (), names, kind) if rng.random() < 0.5 else gen.rand_numeric(rng, (), kind)
+                        extra = small_poly(rng, (), names, ekind) if rng.random() < 0.5 else gen.rand_numeric(rng, (), ekind)
                     else:
                         s2 = list(shape)
                         s2[ax] = rng.choice([1, 2])
-                        extra = small_poly(rng, tuple(s2), names, kind)
+                        extra = small_poly(rng, tuple(s2), names, ekind)
                     args.append(rec.new(extra))
                     p[key] = True
             do(rec, "diff", args, p, rng.choice(["numpoly", "numpy"]))
@@ -83,7 +84,8 @@ def one_trace(rng, tid, prop):
             for key in ("has_pre", "has_app"):
                 if rng.random() < 0.35:
                     s2 = rng.choice([(), (1,), (2,)])
-                    extra = small_poly(rng, s2, names, kind) if rng.random() < 0.6 else gen.rand_numeric(rng, s2, kind)
+                    ekind = kind if rng.random() < 0.6 else rng.choice(["int", "float"])
+                    extra = small_poly(rng, s2, names, ekind) if rng.random() < 0.6 else gen.rand_numeric(rng, s2, ekind)
                     args.append(rec.new(extra))
                     p[key] = True
             do(rec, "ediff1d", args, p, rng.choice(["numpoly", "numpy"]))
